@@ -370,13 +370,13 @@ func runC09(c *Ctx) {
 
 			// the other direction: a failed (not skipped) reconcile that asked for no interval takes the backoff — it is
 			// never released without a retry time
-			failed := p.EdgeSuccs(body, "nonnil(phi(call:*runOnce(*", "nonnil(call:*runOnce(*")
-			bad, w := p.Reach(failed, IsReturn, CutSpec{Nodes: gb, Edges: func(e EdgeInfo) bool {
-				return AnyFact(e, func(f string) bool {
-					return Glob(skipped0, f) || strings.HasPrefix(f, "ne(") && strings.HasSuffix(f, ",const:0)") && strings.Contains(f, "Interval(") || strings.HasPrefix(f, "nil(") && (strings.Contains(f, ".runOnce(") || strings.Contains(f, "RequeueError).Err("))
-				})
-			}})
-			c.Check(len(failed) >= 1 && !bad, "R09.6", FuncName(body)+" :: a failed reconcile ends with the backoff taken or an explicit non-zero interval", fpos(body), fmt.Sprintf("%d failure edges", len(failed)), "a failing item can be released without a retry time: "+strings.Join(w, " "))
+			retried := OrInstr(gb, p.PlainCallTo(itemT+".Requeue"))
+			bad, w := p.Reach(Entry(body), IsReturn, CutSpec{Nodes: retried, Edges: FactEdge(
+				skipped0,                                     // skipped: no retry wanted
+				"nil(*runOnce(*", "nil(*RequeueError).Err(*", // no error
+				"ne(*Interval(*,const:0)", // an explicit interval (requeued below, R09.5)
+			)})
+			c.Check(!bad, "R09.6", FuncName(body)+" :: a failed reconcile ends with the backoff taken or an explicit non-zero interval", fpos(body), "every way through the job is a success, a skip, an explicit interval or a backoff", "a failing item can be released without a retry time: "+strings.Join(w, " "))
 			// clearBackoff exactly for skipped / successful jobs, wherever the arms are written
 			skipped := "true(call:github.com/siderolabs/gen/xerrors.TagIs(*"
 			c.MustCut("R09.6", "clearBackoff ⊣ {skipped, no reconcile error}", body, cb, CutSpec{Edges: func(e EdgeInfo) bool {
